@@ -104,9 +104,9 @@ Proof. exact eager_initial_failure_immediate. Qed.
 (* the same when the transport connects but the HTTP/2 handshake fails *)
 Theorem c14_eager_handshake_failure_immediate :
   forall cpr sreq, stack_contract cpr sreq ->
-  forall fuel lat prl h, enough_fuel lat prl fuel ->
-    run_with cpr sreq fuel false lat prl UpDead h =
-      mkRun (Some (RoErr (mkErr 1 0 Handshake))) [] 1 None.
+  forall fuel lat prl reason h, enough_fuel lat prl fuel ->
+    run_with cpr sreq fuel false lat prl (UpDead reason) h =
+      mkRun (Some (RoErr (mkErr 1 reason Handshake))) [] 1 None.
 Proof. exact eager_handshake_failure_immediate. Qed.
 
 Theorem c14_eager_initial_success :
@@ -121,7 +121,11 @@ Theorem c14_lazy_reports_nothing_at_construction :
     is_lazy = true -> r_eager (run_with cpr sreq fuel is_lazy lat prl net0 h) = None.
 Proof. exact lazy_reports_nothing_at_construction. Qed.
 
-(* that error is UNAVAILABLE (find_status_in_source_chain: ConnectError) *)
+(* that error is UNAVAILABLE (find_status_in_source_chain: ConnectError) WHATEVER lies beneath the
+   ConnectError: [e] ranges over every reason, and the reason fixes the underlying error
+   ([cause_of_reason]: every io::ErrorKind, a custom error type, a boxed String, wrapped 0..2
+   levels deep), for refusals and for handshake failures alike.  Proved from Model/Status.v's
+   Status::from_error ([from_error_skips_unknown_wrappers], [from_error_connect]). *)
 Theorem c14_connect_error_is_unavailable : forall e,
   outcome_code (ConnectErr e) = Some Code_Unavailable /\
   code_from_error (chain_of_err e) = Code_Unavailable.
@@ -148,7 +152,7 @@ Theorem c14_unavailable_only_while_unreachable :
               (count_calls h1) = Some c ->
     rec_outcome c = ConnectErr e ->
     (net_after net0 h1 = Down (e_reason e) /\ e_kind e = Refused) \/
-    (net_after net0 h1 = UpDead /\ e_kind e = Handshake).
+    (net_after net0 h1 = UpDead (e_reason e) /\ e_kind e = Handshake).
 Proof. exact unavailable_only_while_unreachable. Qed.
 
 (* the two further connector outcomes, exactly: a call that finds no live connection gets the
@@ -159,9 +163,9 @@ Theorem c14_handshake_failure_outcome :
   forall fuel is_lazy lat prl net0, enough_fuel lat prl fuel -> forall h1 h2 c,
     nth_error (r_calls (run_with cpr sreq fuel is_lazy lat prl net0 (h1 ++ Call :: h2)))
               (count_calls h1) = Some c -> quiescent h1 = true ->
-    (net_after net0 h1 = UpDead ->
+    (forall r, net_after net0 h1 = UpDead r ->
      rec_outcome c = Response \/
-     exists e, rec_outcome c = ConnectErr e /\ e_kind e = Handshake /\
+     exists e, rec_outcome c = ConnectErr e /\ e_kind e = Handshake /\ e_reason e = r /\
                outcome_code (rec_outcome c) = Some Code_Unavailable) /\
     (net_after net0 h1 = UpGarbage ->
      rec_outcome c = Response \/
@@ -276,16 +280,27 @@ Proof. split; reflexivity. Qed.
    one attempt each, recovery afterwards *)
 Example c14_handshake_failure_example :
   quiescent [Call; Env ConnectSucceedsGarbage; Call; Env ConnectSucceeds; Call] = true /\
-  plain [Call; Env ConnectSucceedsDead; Call; Env ConnectSucceeds; Call] = true /\
-  plain_net UpDead = true /\
+  plain [Call; Env (ConnectSucceedsDead 13); Call; Env ConnectSucceeds; Call] = true /\
+  plain_net (UpDead 13) = true /\
   map (fun c => outcome_code (rec_outcome c))
-      (r_calls (run true 0 1 UpDead [Call; Env ConnectSucceedsGarbage; Call; Env ConnectSucceeds; Call])) =
+      (r_calls (run true 0 1 (UpDead 77) [Call; Env ConnectSucceedsGarbage; Call; Env ConnectSucceeds; Call])) =
     [Some Code_Unavailable; Some Code_Cancelled; None] /\
-  r_attempts (run true 0 1 UpDead [Call; Env ConnectSucceedsGarbage; Call; Env ConnectSucceeds; Call]) = 3.
+  r_attempts (run true 0 1 (UpDead 77) [Call; Env ConnectSucceedsGarbage; Call; Env ConnectSucceeds; Call]) = 3.
+Proof. repeat split; reflexivity. Qed.
+
+(* the reason fixes the underlying error: reason 45 = io::ErrorKind::TimedOut (13) wrapped once,
+   reason 84 = a custom error type (20) wrapped twice; both UNAVAILABLE, as a refusal and as a
+   handshake failure *)
+Example c14_error_kind_example :
+  cause_of_reason 45 = mkCause 13 1 /\ cause_of_reason 84 = mkCause 20 2 /\
+  map (fun c => outcome_code (rec_outcome c))
+      (r_calls (run true 1 1 (Down 45) [Call; Env (ConnectSucceedsDead 84); Call; Env (ConnectFails 0); Call])) =
+    [Some Code_Unavailable; Some Code_Unavailable; Some Code_Unavailable].
 Proof. repeat split; reflexivity. Qed.
 
 Print Assumptions c14_call_never_panics.
 Print Assumptions c14_connector_protocol_respected.
+Print Assumptions c14_connect_error_is_unavailable.
 Print Assumptions c14_call_definite.
 Print Assumptions c14_eager_initial_failure_immediate.
 Print Assumptions c14_recovers_without_rebuild.
